@@ -217,10 +217,16 @@ func (g *gen) leafSubject() (dnAST, string) {
 		as = append(as, attr{"2.5.4.12", "Chief"})
 		g.r.Shuffle(len(as), func(i, j int) { as[i], as[j] = as[j], as[i] })
 		return singles(as), "unknown-oid"
-	case p < 0.98:
+	case p < 0.97:
 		i := g.r.Intn(len(as))
 		as[i].V = g.pick(eqHashValues)
 		return singles(as), "eqhash-value"
+	case p < 0.99:
+		// a typical developer / CI certificate: common name only, or without the province
+		if g.chance(0.5) {
+			return singles([]attr{{"CN", g.value() + " bot"}}), "cn-only"
+		}
+		return singles([]attr{{"CN", g.value() + " bot"}, {"O", g.pick(plainValues)}, {"C", "US"}}), "cn-o-c"
 	default:
 		// no subject at all
 		return dnAST{}, "empty-subject"
@@ -774,6 +780,18 @@ func mintedList(d dnAST) [][2]string {
 	return out
 }
 
+// goVerifies checks the chain with crypto/x509 alone (root = last certificate).
+func goVerifies(ch *common.Chain) error {
+	roots, inters := x509.NewCertPool(), x509.NewCertPool()
+	xs := ch.X509()
+	roots.AddCert(xs[len(xs)-1])
+	for _, x := range xs[1 : len(xs)-1] {
+		inters.AddCert(x)
+	}
+	_, err := xs[0].Verify(x509.VerifyOptions{Roots: roots, Intermediates: inters, KeyUsages: []x509.ExtKeyUsage{x509.ExtKeyUsageCodeSigning}})
+	return err
+}
+
 func ski(k crypto.Signer) []byte {
 	b, err := x509.MarshalPKIXPublicKey(k.Public())
 	if err != nil {
@@ -935,7 +953,9 @@ func Run(c *common.Ctx) error {
 			}
 			pass, aerr := w.verifyMutated(cf, ids, sig)
 			if aerr != nil && strings.Contains(aerr.Error(), "no authenticity result") {
-				return fmt.Errorf("generator: %v", aerr)
+				// whatever the code under test did is an observation, never a harness failure:
+				// no authenticity result at all counts as "authenticity did not pass"
+				c.Count("no-authenticity-result")
 			}
 			c.Emit(in, Obs{Pass: pass})
 			c.Count("route=mutated-document")
@@ -962,20 +982,29 @@ func Run(c *common.Ctx) error {
 			return nil
 		}
 
-		// control: the lone wildcard accepts this chain (trust-store authenticity itself passes,
-		// so that the only possible authenticity error of the other cases is the identity check)
-		cf := randomConfig()
-		ctl := cf
-		ctl.plugin = nil
-		csig, err := sign(false)
-		if err != nil {
+		// generator sanity, independent of the code under test: the chain is a valid code-signing
+		// chain up to the root the trust store holds (notation-core-go's signer has validated it
+		// too when the envelope was produced), so trust-store authenticity itself passes and the
+		// only possible authenticity error is the identity check.
+		if _, err := sign(false); err != nil {
 			return err
 		}
-		if pass, aerr := w.verifyMutated(ctl, []string{"*"}, csig); !pass {
-			return fmt.Errorf("generator: trust-store authenticity does not pass for chain %d (leaf kind %s): %v", n, kind, aerr)
+		if err := goVerifies(chain); err != nil {
+			return fmt.Errorf("generator: chain %d (leaf kind %s) is not a valid chain: %v", n, kind, err)
 		}
-		if err := emit(cf, []string{"*"}); err != nil {
+		// the lone wildcard, for every chain - whatever the leaf subject looks like
+		if err := emit(randomConfig(), []string{"*"}); err != nil {
 			return err
+		}
+		// ... and the wildcard next to other entries (pinned, malformed, foreign-typed)
+		{
+			ids, _ := g.identityList(leaf, casAST)
+			ids = append(ids, "*")
+			g.r.Shuffle(len(ids), func(i, j int) { ids[i], ids[j] = ids[j], ids[i] })
+			c.Count("list=wildcard-mixed")
+			if err := emit(randomConfig(), ids); err != nil {
+				return err
+			}
 		}
 		for k := 0; k < listsPer; k++ {
 			ids, asts := g.identityList(leaf, casAST)
